@@ -29,6 +29,8 @@ T(id) == CASE id = 1 -> <<83,69,76,69,67,84,32,36,49,32,65,83,32,118,32,70,82,79
            [] id = 11 -> <<83,69,76,69,67,84,32,36,49,32,65,83,32,97,32,70,82,79,77,32,100,117,97,108,32,45,45,32,110,111,116,101,13,32,36,49>>      \* SELECT $1 AS a FROM dual -- note<CR> $1
            [] id = 12 -> <<83,69,76,69,67,84,32,53,45,45,51,32,65,83,32,119,44,32,36,49,32,65,83,32,97,32,70,82,79,77,32,100,117,97,108,32,35,32,120,92,10,32,87,72,69,82,69,32,36,49,32,61,32,36,49>>
                         \* SELECT 5--3 AS w, $1 AS a FROM dual # x\<LF> WHERE $1 = $1   (5--3 is 5 - -3; the backslash does not join the lines)
+           [] id = 13 -> <<83,69,76,69,67,84,32,39,65533,39,32,65,83,32,114,44,32,36,49,32,65,83,32,97,32,70,82,79,77,32,100,117,97,108,32,47,42,32,65533,32,42,47,32,87,72,69,82,69,32,36,49,32,61,32,36,49>>
+                        \* SELECT '<U+FFFD>' AS r, $1 AS a FROM dual /* <U+FFFD> */ WHERE $1 = $1   (the replacement character itself, valid UTF-8, in the template)
            \* templates that leave the lexer in the middle of something (used as the earlier call of a history)
            [] id = 20 -> <<83,69,76,69,67,84,32,49,32,47,42,32,107,101,121,115,58,32,117,115,101,114,47,42,32,97,110,100,32,103,114,111,117,112,47,42,32,42,47,32,70,82,79,77,32,100,117,97,108>>
            [] id = 21 -> <<83,69,76,69,67,84,32,49,32,47,42,32,47,42>>
